@@ -1,14 +1,138 @@
 # C06 - No query ever modifies its sources (RBQL is non-destructive).
-# Theorems: Props/C06.v (sqlite identifier whitelist, only SELECT is ever sent). The list/dataframe/file clause is
-# correspondence only (partial): deep snapshot + object identity of every row, dataframe equality + dtypes, file hashes + mtime,
-# sqlite file hash + trace of every SQL statement compared with the model's sql_of_query.
+# Theorems: Props/C06.v
+#   * sqlite clause: identifier whitelist, only SELECT is ever sent;
+#   * list clause: C06_ownership_sound / C06_writers_safe / C06_program_sources_unchanged over the heap IR of Heap.v (objects with
+#     identity).  The IR terms are REGENERATED FROM THE IMPLEMENTATION'S SOURCE on every run by harness/translate_heap.py into
+#     build/gen/heap_<pid>/HeapFacts.v, with one obligation gen_<program>_safe / gen_<lang>_<Writer>_ok each and the instantiated
+#     corollaries gen_<program>_sources_unchanged; heap_step() below compiles that file and checks every Print Assumptions.
+#     A refused translation, an obligation that evaluates to false or a coqc error is a violation: the correspondence run
+#     first searches a concrete failing input (heap_cases: writers that mutate what they are handed, both ports); only if it
+#     finds none the violation is reported as no-failing-input-found with the broken obligation in the replay file.
+# The dataframe / file / sqlite-file clause is correspondence only: dataframe equality + dtypes, file hashes + mtime, sqlite
+# file hash + trace of every SQL statement compared with the model's sql_of_query.
 import importlib
 import json
+import os
+import re
+import shutil
+import threading
+import time
 import lib
 import qgen
 import enginecheck as ec
 
-THEOREM = 'C06_only_select / C06_sqlite_identifier (Props/C06.v); sources-unchanged clause: correspondence (snapshots, identity, hashes, SQL trace)'
+THEOREM = ('C06_only_select / C06_sqlite_identifier / C06_ownership_sound / C06_writers_safe (Props/C06.v) + generated gen_*_safe, '
+           'gen_*_sources_unchanged (translate_heap.py); dataframe/file clause: correspondence (snapshots, identity, hashes, SQL trace)')
+HEAP_THEOREM = 'C06_program_sources_unchanged (Props/C06.v) instantiated by the obligations generated from the implementation source (harness/translate_heap.py)'
+
+
+def heap_step(ctx, keep=False):
+    """translate the implementation to the heap IR, compile the generated file; -> dict(ok, failed, detail, dir, theorems, facts)"""
+    d = os.path.join(lib.BUILD, 'gen', 'heap_%d' % os.getpid())
+    shutil.rmtree(d, ignore_errors=True)
+    os.makedirs(d)
+    res = {'ok': False, 'failed': [], 'detail': '', 'dir': d, 'theorems': [], 'facts': None, 'stage': 'translate'}
+    t0 = time.time()
+    env = dict(os.environ)
+    env['VERIF_REPO'] = lib.REPO
+    env['PYTHONDONTWRITEBYTECODE'] = '1'
+    try:
+        rc, out = lib.sh(['timeout', '120', 'python3', os.path.join(lib.VERIF, 'harness', 'translate_heap.py'), d], env=env, timeout=150)
+    except Exception as e:                                   # noqa: BLE001
+        rc, out = 99, 'translator did not finish: %r' % e
+    res['translate_s'] = round(time.time() - t0, 2)
+    if rc != 0:
+        res['failed'] = ['translate_heap']
+        res['detail'] = 'the translator refused the implementation source (rc=%d): %s' % (rc, out.strip()[-1200:])
+        return res
+    facts = json.load(open(os.path.join(d, 'HeapFacts.json')))
+    res['facts'] = facts
+    res['stage'] = 'coqc'
+    t1 = time.time()
+    cmd = 'cd %s && ulimit -s unlimited; timeout 120 coqc -Q %s RBQL -Q %s RBQLGen %s 2>&1' % (d, os.path.join(lib.COQ, 'theories'), d, os.path.join(d, 'HeapFacts.v'))
+    try:
+        rc, out = lib.sh(['bash', '-c', cmd], timeout=150)
+    except Exception as e:                                   # noqa: BLE001
+        rc, out = 99, 'coqc did not finish: %r' % e
+    res['coqc_s'] = round(time.time() - t1, 2)
+    ctx.generated_checker = 'python3 harness/translate_heap.py build/gen/heap_<pid> (VERIF_REPO); coqc -Q coq/theories RBQL -Q build/gen/heap_<pid> RBQLGen build/gen/heap_<pid>/HeapFacts.v (every run; Eval values and Print Assumptions parsed)'
+    vals = re.findall(r'= (true|false)\s*\n\s*: bool', out)
+    names = facts['obligations']
+    if len(vals) == len(names):
+        res['failed'] = [n for n, v in zip(names, vals) if v != 'true']
+    blocks = [b for b in re.split(r'(?=Closed under the global context|Axioms:)', out) if b.startswith('Closed under') or b.startswith('Axioms:')]
+    thms = facts['theorems']
+    closed = {}
+    if rc == 0 and len(blocks) == len(thms):
+        for n, b in zip(thms, blocks):
+            closed[n] = b.startswith('Closed under')
+    res['theorems'] = thms
+    for n in thms:
+        okn = closed.get(n, False) and not any(n.startswith(f[:-len('_safe')]) for f in res['failed'] if f.endswith('_safe')) and n not in res['failed']
+        ctx.generated_obligations[n] = bool(okn)
+    if rc != 0 or len(vals) != len(names) or len(blocks) != len(thms) or not all(closed.get(n) for n in thms):
+        if not res['failed']:
+            res['failed'] = ['HeapFacts.v'] if rc != 0 else [n for n in thms if not closed.get(n)] or ['HeapFacts.v']
+        bad = [p for p in facts['programs'] + facts['writers'] if ('gen_%s_safe' % p['name']) in res['failed'] or ('gen_%s_ok' % p['name']) in res['failed']]
+        tail = '\n'.join(l for l in out.split('\n') if l.strip() and not l.startswith('Closed under') and not re.match(r'\s*(= (true|false)|: bool)\s*$', l))
+        res['detail'] = ('obligations that evaluate to false: %s; %s; coqc rc=%d: %s' % (
+            ', '.join(res['failed']), '; '.join('%s <- %s' % (p['name'], p.get('query') or p.get('class')) for p in bad), rc, tail.strip()[-500:]))
+        return res
+    res['ok'] = True
+    if not keep:
+        shutil.rmtree(d, ignore_errors=True)
+    return res
+
+
+HEAP_QUERIES = ['select *', 'select a.*', 'select *, a1', 'select a2, a1', 'select top 2 *', 'select distinct *', 'select distinct count *',
+                'select * order by a1', 'select * except a2', 'select a1, count(*) group by a1', 'select a1, unnest(a2.split(";"))',
+                'update a1 = a2', 'update set a2 = "k" where a1 == "a"', 'update a1 = a2, a2 = a1',
+                'select *, b.* join b on a1 == b1', 'select b.*, a.* left join b on a1 == b1', 'select a.*, b.* strict left join b on a1 == b1',
+                'update a2 = b2 join b on a1 == b1', 'update a1 = b2, a2 = "u" left join b on a1 == b1 where a2 != "z"', 'select a9', 'update a9 = a1']
+
+
+def heap_cases(ctx, ntables):
+    """queries of every template family x writers that mutate what they are handed (user writer, CSVWriter, caller rewriting the
+    output table), for both ports; A and B hold strings (and None / numbers / separators for the CSV writer)"""
+    r = ctx.rng
+    out = []
+    for _ in range(ntables):
+        n = r.randint(1, 4)
+        A = [[r.choice(['a', 'b', 'c']), r.choice(['x;y', 'z', 'k,"l"', '']), r.choice(['1', '2', None, 5])] for _ in range(n)]
+        B = [[k, r.choice(['p', 'q', None])] for k in r.sample(['a', 'b', 'c', 'd'], r.randint(1, 3))]
+        for q in HEAP_QUERIES:
+            for w in ('mutating', 'csv', 'table'):
+                out.append({'mode': 'heap', 'q': q, 'qjs': q, 'A': A, 'B': B if ' join ' in q else None, 'writer': w, 'tags': ['heap', w]})
+        # list-valued cells: a row copy is shallow, so a writer that rewrites a cell OBJECT in place reaches the source row
+        An = [list(row) for row in A]
+        An[r.randrange(n)][2] = ['n', None, 3, ['m', None]]
+        Bn = [list(row) for row in B]
+        Bn[0][1] = [None, 'w']
+        for q in HEAP_QUERIES:
+            for w in ('mutating', 'csv'):
+                out.append({'mode': 'heap', 'q': q, 'qjs': q, 'A': An, 'B': Bn if ' join ' in q else None, 'writer': w, 'tags': ['heap', w, 'nested']})
+    return out
+
+
+def run_heap_cases(ctx, cases):
+    exp = [{'sources_ok': True, 'alias': False} for _ in cases]
+
+    def rel(c, e, g):
+        return isinstance(g, dict) and g.get('sources_ok') is e['sources_ok'] and g.get('alias') is e['alias']
+    for lang, runner in (('py', lib.run_impl_py), ('js', lib.run_impl_js)):
+        lc = [dict(c, lang=lang) for c in cases]
+        got = runner('c06h', lc, timeout=150 if ctx.tier == 'quick' else 1200)
+        ctx.compare(lc, exp, got, HEAP_THEOREM, rel=rel,
+                    describe=lambda c, e, g: 'rbql-%s query %r with a %s writer modified or aliased its sources: A=%s B=%s -> %s' % (
+                        c['lang'], c['q'], c['writer'], json.dumps(c['A']), json.dumps(c['B']), json.dumps(g)[:200]),
+                    corrupt=lambda e: {'sources_ok': False, 'alias': False})
+        for c, g in zip(lc, got):
+            ctx.count()
+            ctx.stat('heap_%s_%s' % (lang, c['writer']))
+            if isinstance(g, dict) and g.get('error') is not None:
+                ctx.stat('heap_%s_failing_query' % lang)
+            if isinstance(g, dict) and g.get('emitted'):
+                ctx.nontriv(('heap', lang, c['q'], c['writer'], json.dumps(c['A'])))
 
 HOSTILE = ['b; drop table t1', 'b;drop', '"b"', 'b--', 'b\n', 'b\x00', 'bé', 't1;', "b'", 'b b', '(b)', 'b/*x*/', '`b`', '[b]', 'b,t1', 'B', 'b', 't1', 'nosuch', '_b1', '']
 
@@ -58,8 +182,10 @@ def other_cases(ctx, n):
 
 
 def run(ctx):
+    heap_clause(ctx)             # the list clause over the heap IR: generated obligations + concrete search (self-contained)
     cases = list_cases(ctx, 500 if ctx.tier == 'quick' else 60000)
-    got = lib.run_impl_py('c06', cases)
+    # (a defect that makes a query loop / grow a list for ever must end as a failing case, not exhaust the machine)
+    got = lib.run_impl_py('c06', cases, timeout=300 if ctx.tier == 'quick' else 1800, mem_limit=6 << 30)
     exp = [{'sources_ok': True, 'alias': False} for _ in cases]
     ctx.compare(cases, exp, got, THEOREM,
                 rel=lambda c, e, g: isinstance(g, dict) and g.get('sources_ok') is e['sources_ok'] and g.get('alias') is e['alias']
@@ -114,11 +240,55 @@ def run(ctx):
         ctx.nontriv((c['mode'], c['q'], json.dumps(c['A']), c.get('table_name')))
     ctx.sample({'kind': 'sqlite', 'table_name': sq[0]['table_name'], 'model_sql': sq[0]['_sql'], 'implementation': ogot[oc.index(sq[0])]})
     ctx.sample({'kind': 'list', 'query': cases[0]['q'], 'A': cases[0]['A'], 'implementation': {k: got[0].get(k) for k in ('sources_ok', 'alias', 'error')}})
-    ctx.rule = ('every generated query of C01-C05 (succeeding and failing) over Python lists: deep snapshot + id() identity of input/join rows after the run, no output row is an input row object; '
+    ctx.rule = ('heap obligations regenerated from the source and re-proved (see notes); ' + str(len(HEAP_QUERIES)) + ' query shapes x {user writer that rewrites its argument, CSVWriter, caller rewriting the output table} x both ports over random tables (non-trivial = at least one row emitted); '
+                'every generated query of C01-C05 (succeeding and failing) over Python lists: deep snapshot + id() identity of input/join rows after the run, no output row is an input row object; '
                 'pandas dataframes (equals + dtypes), CSV input/join files (sha256 + mtime), sqlite file (sha256 + trace of every SQL statement = model sql_of_query) over 14 query shapes; '
                 '21 benign/hostile table identifiers in the table_name argument and in JOIN text; non-trivial = distinct case with a non-empty source')
     # rbql-js/rbql.js is an anchor of this property too: the JavaScript leg runs language-neutral queries of this shape through rbql-js
     importlib.import_module('props.c19').js_leg(ctx, THEOREM, None, 600 if ctx.tier == 'quick' else 60000)
+
+
+def heap_clause(ctx):
+    """translation + compilation of the generated obligations runs beside the concrete search (it only spawns processes);
+    a concrete failing input takes precedence, otherwise the broken obligation is named (no-failing-input-found)"""
+    box = {}
+
+    def bg():
+        try:
+            box['heap'] = heap_step(ctx)
+        except Exception as e:                               # noqa: BLE001
+            box['heap'] = {'ok': False, 'failed': ['heap_step'], 'detail': 'heap step raised %r' % e, 'dir': '', 'theorems': [], 'facts': None, 'stage': 'harness'}
+    th = threading.Thread(target=bg)
+    th.start()
+    nviol0 = len(ctx.violations)
+    failure = None
+    try:
+        run_heap_cases(ctx, heap_cases(ctx, 3 if ctx.tier == 'quick' else 40))
+    except lib.CheckFailure as e:
+        failure = e              # e.g. a driver that does not terminate: still report the obligations, then re-raise
+    th.join()
+    report_heap(ctx, box['heap'], found_concrete=len(ctx.violations) > nviol0)
+    if failure is not None:
+        raise failure
+
+
+def report_heap(ctx, heap, found_concrete):
+    facts = heap.get('facts') or {}
+    ctx.stat('heap_programs_translated', len(facts.get('programs', [])))
+    ctx.stat('heap_writers_translated', len(facts.get('writers', [])))
+    ctx.stat('heap_ir_statements', sum(p['statements'] for p in facts.get('programs', []) + facts.get('writers', [])))
+    ctx.notes.append({'heap_translation': {'ok': heap['ok'], 'stage': heap['stage'], 'failed': heap['failed'], 'translate_s': heap.get('translate_s'),
+                                           'coqc_s': heap.get('coqc_s'), 'generated_theorems': heap['theorems'],
+                                           'programs': [{k: p[k] for k in ('name', 'query', 'chain', 'statements')} for p in facts.get('programs', [])]}})
+    if heap['ok']:
+        if facts.get('programs'):
+            ctx.sample({'kind': 'generated obligation', 'theorem': 'gen_%s_safe' % facts['programs'][0]['name'], 'query': facts['programs'][0]['query'],
+                        'ir_statements': facts['programs'][0]['statements']})
+        return
+    if found_concrete:
+        ctx.notes.append('heap obligations broken (%s); a concrete failing input was found and reported above' % ', '.join(heap['failed']))
+        return
+    ctx.obligation_failed(heap['failed'], heap['detail'], HEAP_THEOREM, case={'heap_obligation': heap['failed'], 'generated_dir': heap['dir'], 'repo': lib.REPO})
 
 
 def replay(ctx, case):
@@ -126,6 +296,20 @@ def replay(ctx, case):
         return importlib.import_module('props.c06n').replay(ctx, case, THEOREM)
     if case.get('impl') == 'js':
         return importlib.import_module('props.c19').replay(ctx, case)
+    if 'heap_obligation' in case:
+        heap = heap_step(ctx, keep=True)
+        ctx.count()
+        report_heap(ctx, heap, found_concrete=False)
+        return
+    if case.get('mode') == 'heap':
+        runner = lib.run_impl_js if case.get('lang') == 'js' else lib.run_impl_py
+        g = runner('c06h', [case], shards=1)[0]
+        ctx.count()
+        ctx.compare([case], [{'sources_ok': True, 'alias': False}], [g], HEAP_THEOREM,
+                    rel=lambda c, e, g_: isinstance(g_, dict) and g_.get('sources_ok') is e['sources_ok'] and g_.get('alias') is e['alias'],
+                    corrupt=lambda e: {'sources_ok': False, 'alias': False},
+                    describe=lambda c, e, g_: 'rbql-%s query %r with a %s writer modified or aliased its sources -> %s' % (c.get('lang'), c['q'], c['writer'], json.dumps(g_)[:200]))
+        return
     g = lib.run_impl_py('c06', [case], shards=1, extra_env={'VERIF_SCRATCH': lib.BUILD})[0]
     ctx.count()
     ok = isinstance(g, dict) and g.get('sources_ok') is True and g.get('alias', False) is False
